@@ -485,6 +485,43 @@ func autoRefreshNegativeInterval() *sched.Scenario {
 	}
 }
 
+// Q8: a cache with a time-to-live of zero (accepted by the option). The source
+// stops listing P (version 2), a refresh, then lists an OLDER record of P
+// (version 1), another refresh, while a reader looks P up twice and lists. No
+// time passes, so P stays; and what a reader is given is the record of some
+// completed update: version 2 throughout, never the older record.
+func ttlZeroOlderRecordReappears() *sched.Scenario {
+	name := "Q8-ttl-zero-provider-unlisted-then-listed-with-an-older-record"
+	readers := map[string]bool{"R1": true}
+	return &sched.Scenario{Name: name, AfterStep: afterStep(readers),
+		Setup: func(e *sched.Exec) ([]sched.Thread, func()) {
+			src := &source{e: e, recs: map[peer.ID]int{pP: 2}}
+			pc, err := pcache.New(pcache.WithSource(src), pcache.WithRefreshInterval(0), pcache.WithTTL(0))
+			if err != nil {
+				panic(err)
+			}
+			w := &world{pc, src}
+			src.gated = true
+			return []sched.Thread{
+				{Name: "W", Fn: func() {
+					for _, v := range []int{0, 1} {
+						src.mu.Lock()
+						src.recs[pP] = v
+						src.mu.Unlock()
+						e.Log("W Refresh begin")
+						err := pc.Refresh(context.Background())
+						e.Log("W Refresh end err=%v", err)
+					}
+				}},
+				readerThread(e, w, "R1"),
+			}, func() {}
+		},
+		Check: func(e *sched.Exec) []sched.Finding {
+			return checkReaders(e, name, []string{"W", "R1"}, map[int]bool{2: true})
+		},
+	}
+}
+
 func autoRefreshOnce() *sched.Scenario {
 	name := "Q3-auto-refresh-once"
 	return &sched.Scenario{Name: name,
@@ -644,7 +681,7 @@ func autoRefreshDueReaders() *sched.Scenario {
 
 func TestCheck(t *testing.T) {
 	r := vp.New("C07", "model_checking",
-		"scenarios on the real ProviderCache built with the instrumentation overlay, with a fake source whose Fetch/FetchAll are scheduling points (a writer can be parked inside a source call while it holds the write lock): Q1 one and two readers (Get, List, GetResults, Get of a provider cached by preload) vs a Refresh that moves that provider from version 1 to 2 and adds another, without and with filler providers so that the refresh rebuilds the main map, and with the library's own HTTP source between the cache and the fake, made by the caller (NewHTTPSource + WithSource) and by the cache (WithClient + WithSourceURL), its transport answering from the fake on the calling goroutine; Q2 a reader vs a lookup of an uncached provider (miss-fetch); Q4 a refresh, a miss-fetch and a reader together (two writers publishing one after the other), with a final read once everything is at rest; Q3 two lookups after the refresh interval elapsed (virtual time); Q3n two lookups on a cache whose refresh interval is below zero (a refresh is due at every lookup); Q5 the same moment with a slow source and two readers whose first operation is a listing / a result expansion. Q6 a provider that was looked up while unknown (remembered absent, merged into the main map) appears and is published by a refresh while a reader looks it up and lists (lookup and listing must agree). In every scenario the records a reader was handed by a listing must read the same at the end of its run (the source's answers differ in their ingest-status fields from round to round), and a source call made on a reader's own goroutine is a violation (a read of a cached provider never does a writer's work). All interleavings at the scheduling points (atomic load/store/CAS of the snapshot pointer and refresh flag, write-lock channel operations, spawns, source calls, observations) up to the preemption bound. At every quiescence a reader released last must be parked at its next point or finished (otherwise it waits for a writer). states = distinct decision states; transitions = scheduling steps; traces = executions of the real cache.",
+		"scenarios on the real ProviderCache built with the instrumentation overlay, with a fake source whose Fetch/FetchAll are scheduling points (a writer can be parked inside a source call while it holds the write lock): Q1 one and two readers (Get, List, GetResults, Get of a provider cached by preload) vs a Refresh that moves that provider from version 1 to 2 and adds another, without and with filler providers so that the refresh rebuilds the main map, and with the library's own HTTP source between the cache and the fake, made by the caller (NewHTTPSource + WithSource) and by the cache (WithClient + WithSourceURL), its transport answering from the fake on the calling goroutine; Q2 a reader vs a lookup of an uncached provider (miss-fetch); Q4 a refresh, a miss-fetch and a reader together (two writers publishing one after the other), with a final read once everything is at rest; Q3 two lookups after the refresh interval elapsed (virtual time); Q3n two lookups on a cache whose refresh interval is below zero (a refresh is due at every lookup); Q8 a cache with a time-to-live of zero whose source stops listing a provider and then lists an older record of it, two refreshes beside a reader; Q5 the same moment with a slow source and two readers whose first operation is a listing / a result expansion. Q6 a provider that was looked up while unknown (remembered absent, merged into the main map) appears and is published by a refresh while a reader looks it up and lists (lookup and listing must agree). In every scenario the records a reader was handed by a listing must read the same at the end of its run (the source's answers differ in their ingest-status fields from round to round), and a source call made on a reader's own goroutine is a violation (a read of a cached provider never does a writer's work). All interleavings at the scheduling points (atomic load/store/CAS of the snapshot pointer and refresh flag, write-lock channel operations, spawns, source calls, observations) up to the preemption bound. At every quiescence a reader released last must be parked at its next point or finished (otherwise it waits for a writer). states = distinct decision states; transitions = scheduling steps; traces = executions of the real cache.",
 		"data races are NOT decided here: a cooperative scheduler's hand-offs are happens-before edges; they are the business of the separate free-running -race pass of the same operations (package c07race, run by the driver, sampled and declared non-exhaustive)",
 		"at most 2 readers; sequential consistency of the atomics is assumed",
 	)
@@ -657,7 +694,7 @@ func TestCheck(t *testing.T) {
 	if vp.Thorough() {
 		bound = 3
 	}
-	scs := []*sched.Scenario{readersVsRefresh(1, 0), readersVsRefresh(1, 3), readersVsRefresh(1, 1, "NewHTTPSource"), readersVsRefresh(1, 0, "WithSourceURL"), readerVsMissFetch(), autoRefreshOnce(), autoRefreshNegativeInterval(), autoRefreshDueReaders(), appearsAfterRememberedAbsent(), refreshAndMissFetch(), readersVsRefresh(2, 0)}
+	scs := []*sched.Scenario{readersVsRefresh(1, 0), readersVsRefresh(1, 3), readersVsRefresh(1, 1, "NewHTTPSource"), readersVsRefresh(1, 0, "WithSourceURL"), readerVsMissFetch(), autoRefreshOnce(), autoRefreshNegativeInterval(), ttlZeroOlderRecordReappears(), autoRefreshDueReaders(), appearsAfterRememberedAbsent(), refreshAndMissFetch(), readersVsRefresh(2, 0)}
 	r.Bounds(map[string]any{"preemption_bound": bound, "scenarios": len(scs)})
 	budget := 0.0
 	if v := os.Getenv("VERIF_BUDGET_S"); v != "" {
